@@ -24,6 +24,7 @@ type c20Case struct {
 	Batch         int    `json:"batch"`
 	NRcpt         int    `json:"nrcpt"`
 	Slot          int    `json:"slot"`      // message that gets the negative reply
+	SlotMask      int    `json:"slot_mask,omitempty"` // bit i: message i gets the (same) negative reply too; 0 = only Slot
 	Pos           string `json:"pos"`       // MAIL RCPT DATA DATA-END RSET
 	RcptMask      int    `json:"rcpt_mask"` // bit j: recipient j rejected (Pos == RCPT)
 	Code          int    `json:"code"`
@@ -94,9 +95,15 @@ func runC20Case(r *ev.Run, c c20Case) {
 		}
 		msgs = append(msgs, m)
 	}
+	inSlots := func(i int) bool {
+		if c.SlotMask != 0 {
+			return i >= 0 && c.SlotMask&(1<<i) != 0
+		}
+		return i == c.Slot
+	}
 	var mu sync.Mutex
 	lastCode := 0
-	var rejected []string
+	rejectedBy := map[int][]string{}
 	newCfg := func(int) *refsmtp.Config {
 		cur := -1
 		delivered := -1
@@ -122,11 +129,11 @@ func runC20Case(r *ev.Run, c c20Case) {
 					if i := strings.Index(st.Line, "<m"); i >= 0 {
 						fmt.Sscanf(st.Line[i+2:], "%d", &cur)
 					}
-					if c.Pos == "MAIL" && cur == c.Slot {
+					if c.Pos == "MAIL" && inSlots(cur) {
 						return neg(c.Code)
 					}
 				case "RCPT":
-					if c.Pos == "RCPT" && cur == c.Slot {
+					if c.Pos == "RCPT" && inSlots(cur) {
 						j := -1
 						if i := strings.Index(st.Line, "<r"); i >= 0 {
 							fmt.Sscanf(st.Line[i+2:], "%d", &j)
@@ -137,23 +144,23 @@ func runC20Case(r *ev.Run, c c20Case) {
 							if c.Code2 != 0 && c.RcptMask>>(j+1) == 0 {
 								code = c.Code2
 							}
-							rejected = append(rejected, fmt.Sprintf("r%dm%d@rcpt.example", j, cur))
+							rejectedBy[cur] = append(rejectedBy[cur], fmt.Sprintf("r%dm%d@rcpt.example", j, cur))
 							return neg(code)
 						}
 					}
 				case "DATA":
-					if c.Pos == "DATA" && cur == c.Slot {
+					if c.Pos == "DATA" && inSlots(cur) {
 						return neg(c.Code)
 					}
 				case "DATA-END":
 					delivered = cur
-					if c.Pos == "DATA-END" && cur == c.Slot {
+					if c.Pos == "DATA-END" && inSlots(cur) {
 						delivered = -1
 						return neg(c.Code)
 					}
 				case "RSET":
 					// only the RSET that follows the delivery of the slot message
-					if c.Pos == "RSET" && delivered == c.Slot && cur == c.Slot {
+					if c.Pos == "RSET" && delivered == cur && inSlots(cur) {
 						delivered = -1
 						return neg(c.Code)
 					}
@@ -173,7 +180,10 @@ func runC20Case(r *ev.Run, c c20Case) {
 	}
 	mu.Lock()
 	finalCode := lastCode
-	rej := append([]string(nil), rejected...)
+	rejAll := map[int][]string{}
+	for k, v := range rejectedBy {
+		rejAll[k] = append([]string(nil), v...)
+	}
 	mu.Unlock()
 	if finalCode == 0 {
 		r.HarnessError(fmt.Sprintf("C20: the scripted negative reply was never sent (%+v) transcript %s", c, sr.Sessions[0].Transcript()))
@@ -185,7 +195,8 @@ func runC20Case(r *ev.Run, c c20Case) {
 	for i, m := range msgs {
 		var se *mail.SendError
 		has := errors.As(m.SendError(), &se)
-		if i != c.Slot {
+		rej := rejAll[i]
+		if !inSlots(i) {
 			if m.HasSendError() {
 				viol("unaffected-message-has-error:"+c.Pos, fmt.Sprintf("message %d was not affected by the negative reply to message %d's %s but carries %v", i, c.Slot, c.Pos, m.SendError()), nil)
 			} else {
@@ -255,6 +266,9 @@ func runC20Case(r *ev.Run, c c20Case) {
 	if entries != failed {
 		viol("joined-error-entries", fmt.Sprintf("returned error has %d entries, %d messages failed: %v", entries, failed, sr.SendErr), nil)
 	}
+	if failed >= 2 {
+		r.Count("batches_with_several_failed_messages", 1)
+	}
 	r.Seen("codes", fmt.Sprint(finalCode))
 	r.Seen("positions", c.Pos)
 	r.Eval(fmt.Sprintf("%+v", c), true)
@@ -280,7 +294,7 @@ func runC20Case(r *ev.Run, c c20Case) {
 
 func runC20(r *ev.Run, rep *ev.ReplayDoc) ev.Summary {
 	sum := ev.Summary{
-		Rule: "every reply code 400-599 x reply text kind {leading enhanced code, none, enhanced-code-like token elsewhere (IP address, version), multi-line, mid-line} x position {MAIL, RCPT (every non-empty subset of up to 3 recipients, last rejection with its own code), DATA, end-of-data, RSET} x ENHANCEDSTATUSCODES advertised or not x batches of 1-3 fresh messages with the fault in each slot x Send/DialAndSend. quick: every code at every position once with rotating other dimensions; thorough: the full cross product. non-trivial: all; distinct by case",
+		Rule: "every reply code 400-599 x reply text kind {leading enhanced code, none, enhanced-code-like token elsewhere (IP address, version), multi-line, mid-line} x position {MAIL, RCPT (every non-empty subset of up to 3 recipients, last rejection with its own code), DATA, end-of-data, RSET} x ENHANCEDSTATUSCODES advertised or not x batches of 1-3 fresh messages with the fault in each slot, or the same fault in several messages of the batch, x Send/DialAndSend. quick: every code at every position once with rotating other dimensions; thorough: the full cross product. non-trivial: all; distinct by case",
 		Assumptions: []string{
 			"the recipient list is read from the error text (\"affected recipient(s): ...\"), the only place the API exposes it",
 			"RSET position = the RSET after the slot message's successful end-of-data",
@@ -307,6 +321,10 @@ func runC20(r *ev.Run, rep *ev.ReplayDoc) ev.Summary {
 					n++
 					c := c20Case{ESCAdvertised: (code+pi+ki)%3 != 0, Batch: 1 + n%3, NRcpt: 1 + (n/3)%3, Pos: pos, Code: code, TextKind: kind, Via: []string{"send", "dialandsend"}[(n/2)%2]}
 					c.Slot = (n / 5) % c.Batch
+					if c.Batch >= 2 && (n/3)%2 == 0 {
+						// several messages of the batch fail the same way
+						c.SlotMask = []int{3, (1 << c.Batch) - 1, 1<<c.Slot | 1<<((c.Slot+1)%c.Batch)}[(n/6)%3]
+					}
 					if pos == "RCPT" {
 						c.RcptMask = 1 + (n/7)%((1<<c.NRcpt)-1)
 						if n%4 == 0 {
@@ -337,6 +355,9 @@ func runC20(r *ev.Run, rep *ev.ReplayDoc) ev.Summary {
 								c.Code2 = 400 + (code+61)%200
 							}
 							c.Retry = n%7 == 0
+							if batch >= 2 && (n/3)%4 == 0 {
+								c.SlotMask = []int{3, (1 << batch) - 1, 1<<c.Slot | 1<<((c.Slot+1)%batch)}[(n/12)%3]
+							}
 							cases = append(cases, c)
 						}
 					}
